@@ -3,7 +3,11 @@
      x/community/keeper/disable_inflation.go (CheckAndDisableMintAndKavaDistInflation)
      x/community/abci.go                     (BeginBlocker: switch first, then payout)
      x/kavadist/keeper/mint.go               (MintPeriodInflation, mintIncentivePeriods, mintInflationaryCoins)
-     x/kavadist/keeper/infrastructure.go     (mintInfrastructurePeriods: the same switch)
+     x/kavadist/keeper/infrastructure.go     (mintInfrastructurePeriods: the same switch, and the
+                                              elapsed time it hands on (fix f4ddd6441: the sum of
+                                              the stretches minted for); distributeInfrastructureCoins:
+                                              partner rewards per second x elapsed, core rewards by
+                                              weight of what is left, the rest stays in the module account)
        -- as of fix commits 26e660a58, f162bf2f3 (case 2 counts from max(prev, Start)) and
           596bf9063 (a zero amount returns a well-formed zero coin instead of sdk.Coin{})
      app/app.go SetOrderBeginBlockers        (community, then x/mint, then kavadist)
@@ -31,6 +35,15 @@ Definition calc_staking_rewards (now last err rate pool_dec : Z) : Z * Z :=
 
 Record period := mkPeriod { p_start : Z; p_end : Z; p_infl : Z }.
 
+(* who can be named as the address of a partner or core reward: an ordinary
+   account (index into [users]), the x/kavadist module account itself, the
+   x/community module account (both are on app.go's allow-list of module
+   accounts that may receive funds), or an address x/bank refuses to pay to
+   (any other module account: fee collector, x/distribution, ...) *)
+Inductive recipient := RUser (i : nat) | RKavadist | RCommunity | RBlocked.
+Record partner := mkPartner { pr_to : recipient; pr_rate : Z }.      (* RewardsPerSecond.Amount (the coin's denom is ignored by the code) *)
+Record core := mkCore { cr_to : recipient; cr_weight : Z }.         (* Weight (mantissa) *)
+
 Record state := mkState {
   (* x/community store *)
   sr_last : Z;        (* StakingRewardsState.LastAccumulationTime, 0 = zero time *)
@@ -49,21 +62,29 @@ Record state := mkState {
   kd_active : bool;
   kd_prev : Z;        (* PreviousBlockTime, 0 = not found *)
   kd_periods : list period;
-  kd_infra : list period
+  kd_infra : list period;
+  (* x/kavadist InfrastructureParams.PartnerRewards / CoreRewards, and the ukava
+     balances of the ordinary accounts that can be named in them *)
+  kd_partners : list partner;
+  kd_cores : list core;
+  users : list Z
 }.
 
 Definition set_sr (s : state) (last err : Z) : state :=
   mkState last err (c_rate s) (c_upg s) (c_upg_rate s) (pool s) (sink s) (kdbal s) (supply s)
-          (m_min s) (m_max s) (d_tax s) (kd_active s) (kd_prev s) (kd_periods s) (kd_infra s).
+          (m_min s) (m_max s) (d_tax s) (kd_active s) (kd_prev s) (kd_periods s) (kd_infra s) (kd_partners s) (kd_cores s) (users s).
 Definition set_rate (s : state) (r : Z) : state :=
   mkState (sr_last s) (sr_err s) r (c_upg s) (c_upg_rate s) (pool s) (sink s) (kdbal s) (supply s)
-          (m_min s) (m_max s) (d_tax s) (kd_active s) (kd_prev s) (kd_periods s) (kd_infra s).
+          (m_min s) (m_max s) (d_tax s) (kd_active s) (kd_prev s) (kd_periods s) (kd_infra s) (kd_partners s) (kd_cores s) (users s).
 Definition set_bank (s : state) (p k kd su : Z) : state :=
   mkState (sr_last s) (sr_err s) (c_rate s) (c_upg s) (c_upg_rate s) p k kd su
-          (m_min s) (m_max s) (d_tax s) (kd_active s) (kd_prev s) (kd_periods s) (kd_infra s).
+          (m_min s) (m_max s) (d_tax s) (kd_active s) (kd_prev s) (kd_periods s) (kd_infra s) (kd_partners s) (kd_cores s) (users s).
+Definition set_users (s : state) (u : list Z) : state :=
+  mkState (sr_last s) (sr_err s) (c_rate s) (c_upg s) (c_upg_rate s) (pool s) (sink s) (kdbal s) (supply s)
+          (m_min s) (m_max s) (d_tax s) (kd_active s) (kd_prev s) (kd_periods s) (kd_infra s) (kd_partners s) (kd_cores s) u.
 Definition set_kd (s : state) (a : bool) (prev : Z) : state :=
   mkState (sr_last s) (sr_err s) (c_rate s) (c_upg s) (c_upg_rate s) (pool s) (sink s) (kdbal s) (supply s)
-          (m_min s) (m_max s) (d_tax s) a prev (kd_periods s) (kd_infra s).
+          (m_min s) (m_max s) (d_tax s) a prev (kd_periods s) (kd_infra s) (kd_partners s) (kd_cores s) (users s).
 
 (* what one payout did (ghost record used by the theorems; everything in it is
    determined by the state before the payout and the block time) *)
@@ -112,7 +133,7 @@ Definition check_disable (t cons : Z) (s : state) : state * bool :=
              0 0                     (* x/mint InflationMin, InflationMax := 0 *)
              0                       (* x/distribution CommunityTax := 0 *)
              false                   (* x/kavadist Active := false *)
-             (kd_prev s) (kd_periods s) (kd_infra s), true)
+             (kd_prev s) (kd_periods s) (kd_infra s) (kd_partners s) (kd_cores s) (users s), true)
   else (s, false).
 
 (** * x/mint BeginBlocker (oracle): mints [m] to the fee collector; the next
@@ -178,7 +199,10 @@ Fixpoint mint_periods (now : Z) (ps : list period) (i : nat) (prev sup : Z) : op
       else mint_periods now r (S i) prev sup                                      (* case 4 / no case applies *)
   end.
 
-(* mint.go MintPeriodInflation (partner and core reward lists empty) *)
+(* mint.go MintPeriodInflation, minting part: the two period lists.  (The
+   distribution of the infrastructure coins follows in [kavadist_full]; in the
+   code it sits between the second list and SetPreviousBlockTime, which it
+   neither reads nor writes.) *)
 Definition kavadist_bb (t : Z) (s : state) : outcome state (list window * list window) :=
   if negb (kd_active s) then Ok s ([], [])
   else if kd_prev s =? 0 then Ok (set_kd s true t) ([], [])
@@ -192,6 +216,146 @@ Definition kavadist_bb (t : Z) (s : state) : outcome state (list window * list w
             Ok (set_kd (set_bank s (pool s) (sink s) (kdbal s + (sup2 - supply s)) sup2) true t) (ws1, ws2)
         end
     end.
+
+(** ** infrastructure.go: the elapsed time and the distribution *)
+
+(* the second result of mintInfrastructurePeriods (as of fix commit f4ddd6441):
+   [timeElapsed] is the SUM of the stretches minted for -- case 2 adds
+   End - max(prev, Start), case 3 adds now - prev, the other cases add nothing.
+   Same switch, same threading of previousBlockTime as [mint_periods].
+   (Before the fix it was the LAST assignment, and case 4 assigned now - prev
+   without minting: see the regression theorems in Properties/C19.v.) *)
+Fixpoint infra_elapsed (now : Z) (ps : list period) (prev te : Z) : Z :=
+  match ps with
+  | [] => te
+  | p :: r =>
+      if p_end p <? prev then infra_elapsed now r prev te                                        (* case 1 *)
+      else if kd_case2 now prev p then
+        infra_elapsed now r (p_end p) (te + (unix (p_end p) - unix (Z.max prev (p_start p))))    (* case 2 *)
+      else if kd_case3 now prev p then infra_elapsed now r prev (te + (unix now - unix prev))    (* case 3 *)
+      else infra_elapsed now r prev te                                                           (* case 4 / no case applies *)
+  end.
+
+(* the pre-fix function, kept for the regression theorems only *)
+Fixpoint infra_elapsed_old (now : Z) (ps : list period) (prev te : Z) : Z :=
+  match ps with
+  | [] => te
+  | p :: r =>
+      if p_end p <? prev then infra_elapsed_old now r prev te
+      else if kd_case2 now prev p then
+        infra_elapsed_old now r (p_end p) (unix (p_end p) - unix (Z.max prev (p_start p)))
+      else if kd_case3 now prev p then infra_elapsed_old now r prev (unix now - unix prev)
+      else if now <=? p_start p then infra_elapsed_old now r prev (unix now - unix prev)
+      else infra_elapsed_old now r prev te
+  end.
+
+Fixpoint set_nth (l : list Z) (i : nat) (v : Z) : list Z :=
+  match l, i with
+  | [], _ => []
+  | _ :: r, O => v :: r
+  | x :: r, S k => x :: set_nth r k v
+  end.
+
+(* x/bank SendCoinsFromModuleToAccount(kavadist, to, a ukava): refused for a
+   blocked address (checked first, even for a zero amount) and when the module
+   account holds less than [a]; paying the module account itself debits and
+   credits the same balance.  None = error (which the begin blocker turns into
+   a panic).  An index outside [users] names no account of the model. *)
+Definition send_kd (s : state) (to : recipient) (a : Z) : option state :=
+  match to with
+  | RBlocked => None
+  | RKavadist => if kdbal s <? a then None else Some s
+  | RCommunity =>
+      if kdbal s <? a then None else Some (set_bank s (pool s + a) (sink s) (kdbal s - a) (supply s))
+  | RUser i =>
+      if kdbal s <? a then None
+      else if (i <? length (users s))%nat then
+        Some (set_users (set_bank s (pool s) (sink s) (kdbal s - a) (supply s))
+                        (set_nth (users s) i (nth i (users s) 0 + a)))
+      else None
+  end.
+
+Record payment := mkPayment { pay_to : recipient; pay_amt : Z }.
+
+(* first loop of distributeInfrastructureCoins: [left] is coinsToDistribute *)
+Fixpoint pay_partners (te : Z) (ps : list partner) (left : Z) (s : state) : option (Z * state * list payment) :=
+  match ps with
+  | [] => Some (left, s, [])
+  | p :: r =>
+      let a := pr_rate p * te in                       (* pr.RewardsPerSecond.Amount.Mul(timeElapsed) *)
+      if a <? 0 then None                              (* sdk.NewCoin panics on a negative amount *)
+      else
+        match send_kd s (pr_to p) a with
+        | None => None                                 (* return err *)
+        | Some s1 =>
+            if left <? a then None                     (* safeSub: "negative coins" *)
+            else
+              match pay_partners te r (left - a) s1 with
+              | None => None
+              | Some (l, s2, pays) => Some (l, s2, mkPayment (pr_to p) a :: pays)
+              end
+        end
+  end.
+
+(* second loop: each core reward is its weight of what is LEFT at that point, RoundInt *)
+Definition core_amount (left w : Z) : Z := dec_round_int (dec_mul (dec_of_int left) w).
+Fixpoint pay_cores (cs : list core) (left : Z) (s : state) : option (Z * state * list payment) :=
+  match cs with
+  | [] => Some (left, s, [])
+  | c :: r =>
+      let a := core_amount left (cr_weight c) in
+      if a <? 0 then None
+      else
+        match send_kd s (cr_to c) a with
+        | None => None
+        | Some s1 =>
+            if left <? a then None
+            else
+              match pay_cores r (left - a) s1 with
+              | None => None
+              | Some (l, s2, pays) => Some (l, s2, mkPayment (cr_to c) a :: pays)
+              end
+        end
+  end.
+
+(* what one call of distributeInfrastructureCoins did *)
+Record drec := mkDist {
+  d_te : Z;                      (* timeElapsed handed over by mintInfrastructurePeriods *)
+  d_coins : Z;                   (* coinsToDistribute: minted for the infrastructure periods in this block *)
+  d_partner : list payment;
+  d_core : list payment;
+  d_rem : Z                      (* what is left over: it is not sent anywhere, it stays in the module account *)
+}.
+Definition no_dist : drec := mkDist 0 0 [] [] 0.
+
+(* infrastructure.go distributeInfrastructureCoins; None = error or panic *)
+Definition distribute (te coins : Z) (s : state) : option (state * drec) :=
+  if (te =? 0) || (coins =? 0) then Some (s, mkDist te coins [] [] coins)
+  else
+    match pay_partners te (kd_partners s) coins s with
+    | None => None
+    | Some (l1, s1, pp) =>
+        match pay_cores (kd_cores s) l1 s1 with
+        | None => None
+        | Some (l2, s2, cp) => Some (s2, mkDist te coins pp cp l2)
+        end
+    end.
+
+Definition amounts (l : list payment) : Z := zsum (map pay_amt l).
+Definition minted (ws : list window) : Z := zsum (map w_amt ws).
+
+(* mint.go MintPeriodInflation as a whole *)
+Definition kavadist_full (t : Z) (s : state) : outcome state (list window * list window * drec) :=
+  match kavadist_bb t s with
+  | Ok s1 (ws, wsi) =>
+      if negb (kd_active s) || (kd_prev s =? 0) then Ok s1 (ws, wsi, no_dist)     (* returned before the period loops *)
+      else
+        match distribute (infra_elapsed t (kd_infra s) (kd_prev s) 0) (minted wsi) s1 with
+        | Some (s2, d) => Ok s2 (ws, wsi, d)
+        | None => Panic                                                            (* BeginBlocker: panic(err) *)
+        end
+  | _ => Panic
+  end.
 
 (** * operations *)
 
@@ -211,14 +375,16 @@ Record bout := mkBout {
   b_pay : option payrec;
   b_mint : Z;                    (* minted by x/mint *)
   b_ws : list window;            (* kavadist incentive periods *)
-  b_wsi : list window            (* kavadist infrastructure periods *)
+  b_wsi : list window;           (* kavadist infrastructure periods *)
+  b_dist : drec                  (* distribution of the infrastructure coins *)
 }.
 
 Inductive out :=
 | OBlock (b : bout)
 | OAdj (d : Z)
 | OCalc (paid err : Z)
-| OKd (minted : Z) (ws : list window)
+| OKd (m : Z) (ws : list window)
+| OKdI (m : Z) (ws : list window) (te : Z)
 | ONone.
 
 Definition block (t mint_o cons_o : Z) (s : state) : outcome state out :=
@@ -226,8 +392,8 @@ Definition block (t mint_o cons_o : Z) (s : state) : outcome state out :=
   match payout t s1 with
   | Ok s2 pay =>
       let '(s3, m) := mint_bb mint_o s2 in
-      match kavadist_bb t s3 with
-      | Ok s4 (ws, wsi) => Ok s4 (OBlock (mkBout t fired (if fired then cons_o else 0) pay m ws wsi))
+      match kavadist_full t s3 with
+      | Ok s4 (ws, wsi, d) => Ok s4 (OBlock (mkBout t fired (if fired then cons_o else 0) pay m ws wsi d))
       | _ => Panic
       end
   | _ => Panic
@@ -238,6 +404,15 @@ Definition kd_direct (now prev : Z) (ps : list period) (s : state) : outcome sta
   | None => Panic
   | Some (sup', ws) =>
       Ok (set_bank s (pool s) (sink s) (kdbal s + (sup' - supply s)) sup') (OKd (sup' - supply s) ws)
+  end.
+
+(* direct call of mintInfrastructurePeriods: also returns the elapsed time *)
+Definition kd_direct_infra (now prev : Z) (ps : list period) (s : state) : outcome state out :=
+  match mint_periods now ps 0 prev (supply s) with
+  | None => Panic
+  | Some (sup', ws) =>
+      Ok (set_bank s (pool s) (sink s) (kdbal s + (sup' - supply s)) sup')
+         (OKdI (sup' - supply s) ws (infra_elapsed now ps prev 0))
   end.
 
 Definition step (s : state) (o : op) : outcome state out :=
@@ -251,7 +426,7 @@ Definition step (s : state) (o : op) : outcome state out :=
   | Calc now last err rate pd =>
       let '(paid, e) := calc_staking_rewards now last err rate pd in Ok s (OCalc paid e)
   | KdMint now prev ps => kd_direct now prev ps s
-  | KdInfra now prev ps => kd_direct now prev ps s
+  | KdInfra now prev ps => kd_direct_infra now prev ps s
   end.
 
 (* failed operations are discarded (cached context not written) *)
@@ -277,8 +452,13 @@ Definition rem_sum (l : list out) : Z := zsum (map p_rem (pays l)).
 Definition loss_sum (l : list out) : Z := zsum (map p_loss (pays l)).
 Definition never_capped (l : list out) : Prop := Forall (fun r => p_capped r = false) (pays l).
 Definition npays (l : list out) : Z := Z.of_nat (length (pays l)).
+(* what entered the community pool: deposits and spends, the consolidation at
+   the switch, and infrastructure rewards addressed to the x/community account *)
+Definition to_pool (l : list payment) : Z :=
+  zsum (map (fun p => match pay_to p with RCommunity => pay_amt p | _ => 0 end) l).
+Definition dist_to_pool (d : drec) : Z := to_pool (d_partner d) + to_pool (d_core d).
 Definition adj_sum (l : list out) : Z :=
-  zsum (map (fun x => match x with OAdj d => d | OBlock b => b_cons b | _ => 0 end) l).
+  zsum (map (fun x => match x with OAdj d => d | OBlock b => b_cons b + dist_to_pool (b_dist b) | _ => 0 end) l).
 Definition fired_count (l : list out) : nat := length (filter b_fired (blocks l)).
 Definition block_windows (l : list out) : list (list window) := map b_ws (blocks l).
 Definition block_windows_infra (l : list out) : list (list window) := map b_wsi (blocks l).
@@ -322,24 +502,19 @@ Definition class_of {S O} (r : outcome S O) : rclass :=
    changes and compares the full projections. *)
 Record obs := mkObs { o_class : rclass; o_dstate : list (nat * Z); o_out : list Z }.
 
-Fixpoint set_nth (l : list Z) (i : nat) (v : Z) : list Z :=
-  match l, i with
-  | [], _ => []
-  | _ :: r, O => v :: r
-  | x :: r, S k => x :: set_nth r k v
-  end.
 Definition apply_obs (sh : list Z) (o : obs) : list Z :=
   fold_left (fun l p => set_nth l (fst p) (snd p)) (o_dstate o) sh.
 
 Definition project (s : state) : list Z :=
   [sr_last s; sr_err s; c_rate s; c_upg s; c_upg_rate s; pool s; sink s; kdbal s; supply s;
-   m_min s; m_max s; d_tax s; (if kd_active s then 1 else 0); kd_prev s].
+   m_min s; m_max s; d_tax s; (if kd_active s then 1 else 0); kd_prev s] ++ users s.
 
 Definition out_values (x : out) : list Z :=
   match x with
   | OBlock b => [(if b_fired b then 1 else 0)]
   | OCalc paid e => [paid; e]
   | OKd m _ => [m]
+  | OKdI m _ te => [m; te]
   | _ => []
   end.
 
@@ -354,7 +529,7 @@ Fixpoint list_eqb {A} (eqb : A -> A -> bool) (l1 l2 : list A) : bool :=
 Definition inv_b (s : state) : bool :=
   (0 <=? sr_err s) && (sr_err s <? PREC) && (0 <=? c_rate s) && (0 <=? c_upg_rate s)
   && (0 <=? pool s) && (0 <=? sr_last s) && (0 <=? c_upg s) && (0 <=? kd_prev s)
-  && ((negb (sr_last s =? 0)) || (sr_err s =? 0)).
+  && ((negb (sr_last s =? 0)) || (sr_err s =? 0)) && (0 <=? kdbal s).
 
 (* side-conditions on the oracle values of an operation, checked on every step *)
 Definition oracle_ok (s : state) (o : op) : bool :=
@@ -380,10 +555,11 @@ Fixpoint first_mismatch (s : state) (sh : list Z) (h : list (op * obs)) (i : nat
       else Some i
   end.
 
-Definition mk_state (v : list Z) (ps infra : list period) : state :=
+(* [v]: the 14 scalar components in the order of [project], followed by the users' balances *)
+Definition mk_state (v : list Z) (ps infra : list period) (partners : list partner) (cores : list core) : state :=
   let g := fun i => nth i v 0 in
   mkState (g 0%nat) (g 1%nat) (g 2%nat) (g 3%nat) (g 4%nat) (g 5%nat) (g 6%nat) (g 7%nat) (g 8%nat)
-          (g 9%nat) (g 10%nat) (g 11%nat) (negb (g 12%nat =? 0)) (g 13%nat) ps infra.
+          (g 9%nat) (g 10%nat) (g 11%nat) (negb (g 12%nat =? 0)) (g 13%nat) ps infra partners cores (skipn 14 v).
 
 Record history := mkHist { h_init : state; h_steps : list (op * obs) }.
 
